@@ -75,12 +75,13 @@ theorem readLoop_spec (F : Bytes) (R : Record) (B : Bytes) (g : Good F R B) (sto
         ⟨acc ++ (B.drop cur).take (min k (stop - cur)),
          if k ≤ stop - cur then .nil else .eof,
          cur + min k (stop - cur)⟩ := by
+  unfold readLoop
   intro n
   induction n with
   | zero =>
     intro cur k acc hn hcs hk
     have : ¬ cur < stop := by omega
-    rw [readLoop, dif_neg this]
+    rw [readLoopG, dif_neg this]
     have e : stop - cur = 0 := by omega
     have hk' : ¬ k ≤ 0 := by omega
     simp [e, hk']
@@ -114,7 +115,7 @@ theorem readLoop_spec (F : Bytes) (R : Record) (B : Bytes) (g : Good F R B) (sto
         · rw [hE]; omega
       have hgl : ((B.drop cur).take (min (min E (stop - cur)) k)).length = min (min E (stop - cur)) k := by
         rw [List.length_take, List.length_drop]; rw [g.len] at a4; omega
-      rw [readLoop, dif_pos hlt]
+      rw [readLoopG, dif_pos hlt]
       simp only [hpos, if_false, hE, hwant]
       have hw0 : ¬ (min (min E (stop - cur)) k = 0) := by omega
       rw [dif_neg hw0, hgot]
@@ -133,7 +134,7 @@ theorem readLoop_spec (F : Bytes) (R : Record) (B : Bytes) (g : Good F R B) (sto
             (k ≤ stop - cur) := by omega
         simp only [hiff, ← hsplit, Nat.add_assoc]
     · have e : stop - cur = 0 := by omega
-      rw [readLoop, dif_neg hlt]
+      rw [readLoopG, dif_neg hlt]
       have hk' : ¬ k ≤ 0 := by omega
       simp [e, hk']
 
@@ -237,3 +238,64 @@ theorem expectedCalls_nil (B : Bytes) (stop : Nat) (ks : List Nat) :
     rcases hr with rfl | hr
     · rfl
     · exact ih (cur + k) (by omega) r hr
+
+theorem readLoopG_lt (file : Bytes) (pos eol : Nat → Nat) (endPos stop cur k : Nat) (acc : Bytes)
+    (h : cur < stop) :
+    readLoopG file pos eol endPos stop cur k acc =
+      if endPos ≤ pos cur then ⟨acc, .badLayout, cur⟩
+      else
+        if min (min (eol cur) (endPos - pos cur)) k = 0 then ⟨acc, .badLayout, cur⟩
+        else
+          if (readAt file (pos cur) (min (min (eol cur) (endPos - pos cur)) k)).length <
+              min (min (eol cur) (endPos - pos cur)) k then
+            ⟨acc ++ readAt file (pos cur) (min (min (eol cur) (endPos - pos cur)) k), .eof,
+              cur + (readAt file (pos cur) (min (min (eol cur) (endPos - pos cur)) k)).length⟩
+          else if k - (readAt file (pos cur) (min (min (eol cur) (endPos - pos cur)) k)).length = 0 then
+            ⟨acc ++ readAt file (pos cur) (min (min (eol cur) (endPos - pos cur)) k), .nil,
+              cur + (readAt file (pos cur) (min (min (eol cur) (endPos - pos cur)) k)).length⟩
+          else readLoopG file pos eol endPos stop
+            (cur + (readAt file (pos cur) (min (min (eol cur) (endPos - pos cur)) k)).length)
+            (k - (readAt file (pos cur) (min (min (eol cur) (endPos - pos cur)) k)).length)
+            (acc ++ readAt file (pos cur) (min (min (eol cur) (endPos - pos cur)) k)) := by
+  rw [readLoopG, dif_pos h]
+  rfl
+
+theorem readLoopG_ge (file : Bytes) (pos eol : Nat → Nat) (endPos stop cur k : Nat) (acc : Bytes)
+    (h : ¬ cur < stop) : readLoopG file pos eol endPos stop cur k acc = ⟨acc, .eof, cur⟩ := by
+  rw [readLoopG, dif_neg h]
+
+/-- The loop looks at `pos` and `eol` only at cursors below `stop`: two pairs of functions that agree there
+give the same run.  (This is the guard under which the regenerated `endOfLineOffset`/`position` are tied to the
+model: `Hts.Tie.C19.tie_readLoop`.) -/
+theorem readLoopG_congr (file : Bytes) (pos eol pos' eol' : Nat → Nat) (endPos stop : Nat)
+    (h : ∀ p, p < stop → pos p = pos' p ∧ eol p = eol' p) :
+    ∀ (n cur k : Nat) (acc : Bytes), stop - cur ≤ n →
+      readLoopG file pos eol endPos stop cur k acc = readLoopG file pos' eol' endPos stop cur k acc := by
+  intro n
+  induction n with
+  | zero =>
+    intro cur k acc hn
+    have : ¬ cur < stop := by omega
+    rw [readLoopG_ge _ _ _ _ _ _ _ _ this, readLoopG_ge _ _ _ _ _ _ _ _ this]
+  | succ n ih =>
+    intro cur k acc hn
+    by_cases hlt : cur < stop
+    · obtain ⟨h1, h2⟩ := h cur hlt
+      rw [readLoopG_lt _ pos eol _ _ _ _ _ hlt, readLoopG_lt _ pos' eol' _ _ _ _ _ hlt, ← h1, ← h2]
+      by_cases hp : endPos ≤ pos cur
+      · simp only [hp, if_true]
+      · simp only [hp, if_false]
+        by_cases hw : min (min (eol cur) (endPos - pos cur)) k = 0
+        · simp only [hw, if_true]
+        · simp only [hw, if_false]
+          by_cases hg : (readAt file (pos cur) (min (min (eol cur) (endPos - pos cur)) k)).length <
+              min (min (eol cur) (endPos - pos cur)) k
+          · simp only [hg, if_true]
+          · simp only [hg, if_false]
+            by_cases hk : k - (readAt file (pos cur) (min (min (eol cur) (endPos - pos cur)) k)).length = 0
+            · simp only [hk, if_true]
+            · simp only [hk, if_false]
+              apply ih
+              have : 0 < (readAt file (pos cur) (min (min (eol cur) (endPos - pos cur)) k)).length := by omega
+              omega
+    · rw [readLoopG_ge _ _ _ _ _ _ _ _ hlt, readLoopG_ge _ _ _ _ _ _ _ _ hlt]
